@@ -29,6 +29,7 @@ SUB_DESC = {"classes": [
 ]}
 SUB_VALUE = {"obj": "P", "fields": [["c", {"obj": "Ch", "fields": [["v", {"int": 1}]]}]]}
 SUB_OTHER = {"obj": "P", "fields": [["c", {"obj": "Ch2", "fields": [["v", {"int": 1}], ["w", None]]}]]}
+SUB_GOOD = {"obj": "P", "fields": [["c", {"obj": "Ch2", "fields": [["v", {"int": 1}], ["w", {"int": 5}]]}]]}
 
 # --- a wildcard holding an AnyElement with a None member, FILTER_NONE
 ANY_DESC = {"classes": [
@@ -80,7 +81,7 @@ OK_VALUE = {"obj": "Doc", "fields": [
 ]}
 
 WITNESSES = {
-    "sub": (SUB_DESC, {"value": SUB_VALUE, "other": SUB_OTHER}),
+    "sub": (SUB_DESC, {"value": SUB_VALUE, "other": SUB_OTHER, "good": SUB_GOOD}),
     "anyw": (ANY_DESC, {"value": ANY_VALUE}),
     "wrap": (WRAP_DESC, {"value": WRAP_VALUE}),
     "comp": (COMP_DESC, {"value": COMP_VALUE, "changed": COMP_CHANGED}),
@@ -238,6 +239,9 @@ def main():
         "",
         "namespace Proofs.C04Witness",
         "open Py Xs.Bind Xs.Dict",
+        "",
+        "/-- an environment for the concrete evaluations (ASCII only; the witnesses hold no QName) -/",
+        "def benv0 : BEnv := ⟨Env.ascii, fun _ => true, fun _ => true⟩",
         "",
     ]
     for name, (desc, vals) in WITNESSES.items():
